@@ -276,6 +276,27 @@ def r31(ctx) -> None:
         'fixed CRLF appended): a bare-LF separator gains a CR, a header '
         'line without colon disappears, a header-only message gains a '
         'CRLF — BODY[HEADER] + BODY[TEXT] != b')
+    # message/rfc822 is unwrapped only when a part was named: BODY[HEADER] /
+    # BODY[TEXT] of the message itself are never the embedded message's
+    for nm in ('get_message_headers', 'get_message_text'):
+        g = ctx.proj.func(MSG, f'BaseLoadedMessage.{nm}')
+        gcfg = cfg_of(g)
+        unwraps = gcfg.find(lambda n: isinstance(n.stmt, ast.Assign)
+                            and 'nested[0]' in txt(n.stmt.value))
+        if not unwraps:
+            raise AnchorError(f'{nm}: message/rfc822 unwrapping not found')
+        stests = [t for t in gcfg.nodes if t.kind == 'test' and
+                  guard_atoms(t.stmt.test) == [('section', True)]]
+        R.check(all(any(gcfg.controlled_by(u, t, 't') for t in stests)
+                    for u in unwraps), g, unwraps[0].stmt,
+                f'{nm}: the embedded message is used only under `if '
+                f'section:`',
+                f'{nm} unwraps message/rfc822 even when no part was named: '
+                f'for a message whose top-level Content-Type is '
+                f'message/rfc822, BODY[HEADER] / RFC822.HEADER / BODY[TEXT] '
+                f'return the INNER message\'s header and body — HEADER + '
+                f'TEXT != b while BODY[] and RFC822.SIZE still report the '
+                f'whole message')
     # (d) the FETCH literal payload is what _get_data returned
     bf = ctx.proj.cls(FETCH, '_BodyFetchValue').own_method('get_value')
     ok = False
